@@ -37,6 +37,9 @@ def _fn(cls: ast.ClassDef, name: str) -> ast.FunctionDef:
 def _int(node, what: str) -> int:
     if isinstance(node, ast.Constant) and isinstance(node.value, int) and not isinstance(node.value, bool):
         return node.value
+    if isinstance(node, ast.BinOp) and isinstance(node.op, (ast.Add, ast.Mult)):      # 32 + 32, 2 * 32
+        a, b = _int(node.left, what), _int(node.right, what)
+        return a + b if isinstance(node.op, ast.Add) else a * b
     if isinstance(node, ast.UnaryOp) and isinstance(node.op, ast.USub) and isinstance(node.operand, ast.Constant):
         return -node.operand.value
     raise TranslatorError(f"{what}: expected an integer literal, found {ast.dump(node)[:80]}")
@@ -44,6 +47,12 @@ def _int(node, what: str) -> int:
 
 def _default(fn: ast.FunctionDef, arg: str) -> int:
     names = [a.arg for a in fn.args.args]
+    kwonly = [a.arg for a in fn.args.kwonlyargs]
+    if arg in kwonly:
+        d = fn.args.kw_defaults[kwonly.index(arg)]
+        if d is None:
+            raise TranslatorError(f"{fn.name}: parameter {arg} has no default")
+        return _int(d, f"{fn.name}({arg}=...)")
     if arg not in names:
         raise TranslatorError(f"{fn.name}: no parameter {arg}")
     k = names.index(arg) - (len(names) - len(fn.args.defaults))
@@ -58,11 +67,14 @@ def extract() -> dict:
     tt = _cls(tree_mod, "TokenTree")
     out = {}
     # unchained_max_size
-    caps = [s for s in ast.walk(_fn(tt, "__init__")) if isinstance(s, ast.Assign) and len(s.targets) == 1
-            and isinstance(s.targets[0], ast.Attribute) and s.targets[0].attr == "unchained_max_size"]
+    caps = [s.value for s in ast.walk(_fn(tt, "__init__"))
+            if (isinstance(s, ast.Assign) and len(s.targets) == 1 and isinstance(s.targets[0], ast.Attribute)
+                and s.targets[0].attr == "unchained_max_size")
+            or (isinstance(s, ast.AnnAssign) and isinstance(s.target, ast.Attribute)
+                and s.target.attr == "unchained_max_size" and s.value is not None)]
     if len(caps) != 1:
         raise TranslatorError("TokenTree.__init__: expected exactly one assignment to self.unchained_max_size")
-    out["unchainedMaxSize"] = _int(caps[0].value, "unchained_max_size")
+    out["unchainedMaxSize"] = _int(caps[0], "unchained_max_size")
     if out["unchainedMaxSize"] < 0:
         raise TranslatorError("unchained_max_size is negative")
     # maxdepth defaults
@@ -73,15 +85,17 @@ def extract() -> dict:
     # chunk_size = <int> + sig_len
     cs = [s for s in ast.walk(_fn(tt, "unserialize_public")) if isinstance(s, ast.Assign) and len(s.targets) == 1
           and isinstance(s.targets[0], ast.Name) and s.targets[0].id == "chunk_size"]
-    if len(cs) != 1 or not (isinstance(cs[0].value, ast.BinOp) and isinstance(cs[0].value.op, ast.Add)):
+    if len(cs) != 1 or not (isinstance(cs[0].value, ast.BinOp) and isinstance(cs[0].value.op, ast.Add)):  # noqa
         raise TranslatorError("unserialize_public: expected `chunk_size = <int> + sig_len`")
-    l, r = cs[0].value.left, cs[0].value.right
-    if isinstance(r, ast.Name) and r.id == "sig_len":
-        out["chunkBase"] = _int(l, "chunk_size")
-    elif isinstance(l, ast.Name) and l.id == "sig_len":
-        out["chunkBase"] = _int(r, "chunk_size")
-    else:
+    def terms(node):
+        if isinstance(node, ast.BinOp) and isinstance(node.op, ast.Add):
+            return terms(node.left) + terms(node.right)
+        return [node]
+    ts = terms(cs[0].value)
+    sigs = [t for t in ts if isinstance(t, ast.Name) and t.id == "sig_len"]
+    if len(sigs) != 1:
         raise TranslatorError("unserialize_public: expected `chunk_size = <int> + sig_len`")
+    out["chunkBase"] = sum(_int(t, "chunk_size") for t in ts if t is not sigs[0])
     # struct format of Token.unserialize
     tk = _cls(token_mod, "Token")
     fmts = [n for n in ast.walk(_fn(tk, "unserialize")) if isinstance(n, ast.Call)
